@@ -62,3 +62,21 @@ def generate() -> dict:
                     'Definition fact_extracted : bool := false.\n') % str(ex).replace('*)', '* )')
         _write_if_changed(fp, '(* GENERATED from /repo by harness/gen_facts.py - do not edit *)\n' + text)
     return status
+
+
+@extractor('DefaultTable')
+def default_table() -> str:
+    fp = os.path.join(common.SRC, 'valiant', 'data', 'default_codon_table.csv')
+    rows = []
+    with open(fp, newline='') as fh:
+        for r in csv.reader(fh):
+            if len(r) != 4:
+                raise FactError(f'default table row with {len(r)} fields')
+            codon, aa, freq, rank = r
+            if not re.fullmatch(r'[ACGT]{3}', codon) or not re.fullmatch(r'RANK(\d+|U|T|UT)', rank):
+                raise FactError(f'unrecognised default table row {r}')
+            k = 1 if rank[4:] in ('U', 'T', 'UT') else int(rank[4:])
+            rows.append(f'  mkRow (d {coq_str(codon)}) {coq_str(aa)} {k}')
+    return ('From VV Require Import Model.Base Model.Pattern Model.CodonTable.\nLocal Open Scope string_scope.\n'
+            'Definition fact_extracted : bool := true.\n'
+            'Definition default_rows : list crow := [\n' + ';\n'.join(rows) + '].\n')
